@@ -108,6 +108,8 @@ var c41contexts = []c41ctx{
 	{"div", ""}, {"table", ""}, {"tbody", ""}, {"tr", ""}, {"td", ""}, {"select", ""}, {"template", ""}, {"svg", "svg"},
 	{"title", ""}, {"textarea", ""}, {"script", ""}, {"html", ""}, {"head", ""}, {"body", ""}, {"frameset", ""},
 	{"colgroup", ""}, {"caption", ""}, {"noscript", ""}, {"math", "math"}, {"zz", ""},
+	{"", ""},            // nil context (ParseFragment documents it: "if context is nil ...")
+	{"template", "svg"}, // a foreign element that shares its name with an HTML element the parser special-cases
 }
 
 // tags used in the enumerated holes; the first c41quickTags are used in the quick tier.
@@ -155,6 +157,9 @@ func c41parse(sk int, body string, scripting bool) {
 	}
 	c := c41contexts[sk-len(c41docs)]
 	ctx := &Node{Type: ElementNode, Data: c.tag, DataAtom: atom.Lookup([]byte(c.tag)), Namespace: c.ns}
+	if c.tag == "" {
+		ctx = nil
+	}
 	nodes, err := ParseFragmentWithOptions(strings.NewReader(body), ctx, opt)
 	// Known finding C41-fragment-head-root-popped: with context <head> the parser starts in inHeadIM, whose "pop the
 	// head element" steps pop the only element of the stack (the synthetic html root). Later steps then run on an
@@ -169,7 +174,7 @@ func c41parse(sk int, body string, scripting bool) {
 	for _, n := range nodes {
 		total += c41checkRoot(n, true)
 	}
-	vfAssert(ctx.FirstChild == nil && ctx.Parent == nil, "context element is left untouched")
+	vfAssert(ctx == nil || (ctx.FirstChild == nil && ctx.Parent == nil), "context element is left untouched")
 	vfObserve("nodes", uint64(total))
 	vfReach("fragment")
 }
